@@ -232,6 +232,11 @@ class Ctx:
         if kind == "it":
             rows = [{A.tag(c): v for c, v in zip(s.cols, r)} for r in s.rows]
             payload = payload_factory(s, rows) if payload_factory else iteration.RowSequence(rows)
+            if s.special == "chained":
+                # a lazy leaf payload that is itself a ChainRowIterable over a (mutable) list of parts - legal
+                # for a LeafRelation built directly, and aliasable by anything that "flattens" chains
+                h = len(rows) // 2
+                payload = iteration.ChainRowIterable([iteration.RowSequence(rows[:h]), iteration.RowSequence(rows[h:])])
             self.leaf_payloads[s.name] = payload
             return LeafRelation(
                 eng, cols, payload, name=s.leaf_name or s.name, min_rows=lo, max_rows=hi, parameters=params
